@@ -92,37 +92,23 @@ Definition spec_decode_ref (bs : list N) : option td_abs :=
             (spec_ref_pairs Float n 30 bs) [])
   else None.
 
-(* ---------------- C13: the images foreign writers emit ---------------- *)
-(* content of an image in the FILE's own terms: raw field values (f32 or f64 bit patterns, weights
-   u32/u64; for the reference formats weights and k are floating point numbers) *)
-Record td_raw := mkTdRaw {
-  r_k : N; r_rev : bool; r_min : N; r_max : N; r_cs : list (N * N); r_buf : list N;
-  r_flag_hi : N;          (* flag bits 3..7 (undefined by the format), as a multiple of 8 *)
-  r_unused : N            (* bytes 6-7 (DataSketches) / the two shorts (reference float format) *)
-}.
+(* ---------------- C13: admissible contents ---------------- *)
+(* what a conforming writer (Java, C++, the reference implementation) can hold: k in the range every
+   implementation accepts (10 ..= 65535), finite values, positive integer weights whose total fits
+   64 bits, min / max present (and not NaN) exactly when there is data *)
+Definition fin64 (b : N) : bool := negb (is_nan64 b) && negb (is_inf64 b).
+Definition no_items (a : td_abs) : bool := match a_cs a, a_buf a with [], [] => true | _, _ => false end.
+Definition abs_weight (a : td_abs) : N := fold_right (fun c acc => snd c + acc) 0 (a_cs a).
+Definition abs_admissible (a : td_abs) : bool :=
+  (10 <=? a_k a) &&
+  forallb (fun c => fin64 (fst c) && (1 <=? snd c)) (a_cs a) &&
+  forallb fin64 (a_buf a) &&
+  (abs_weight a + N.of_nat (length (a_buf a)) <? 18446744073709551616) &&
+  match a_minmax a with
+  | None => no_items a
+  | Some (mn, mx) => negb (is_nan64 mn) && negb (is_nan64 mx) && negb (no_items a)
+  end.
 
-Definition enc_pair (f : flavour) (c : N * N) : list N := le_bytes (vsize f) (fst c) ++ le_bytes (vsize f) (snd c).
-Definition enc_pair_be (f : flavour) (c : N * N) : list N :=       (* weight first *)
-  rev (le_bytes (vsize f) (snd c)) ++ rev (le_bytes (vsize f) (fst c)).
-
-(* DataSketches writers (Java / C++): empty, single value, or the general form (which a C++
-   writer may emit with buffered values) *)
-Definition spec_encode_empty (r : td_raw) : list N :=
-  [1; 1; 20] ++ le_bytes 2 (r_k r) ++ [1 + (if r_rev r then 4 else 0) + r_flag_hi r] ++ le_bytes 2 (r_unused r).
-Definition spec_encode_single (f : flavour) (r : td_raw) : list N :=
-  [1; 1; 20] ++ le_bytes 2 (r_k r) ++ [2 + (if r_rev r then 4 else 0) + r_flag_hi r] ++ le_bytes 2 (r_unused r) ++
-  le_bytes (vsize f) (r_min r).
-Definition spec_encode_multi (f : flavour) (r : td_raw) : list N :=
-  [2; 1; 20] ++ le_bytes 2 (r_k r) ++ [(if r_rev r then 4 else 0) + r_flag_hi r] ++ le_bytes 2 (r_unused r) ++
-  le_bytes 4 (N.of_nat (length (r_cs r))) ++ le_bytes 4 (N.of_nat (length (r_buf r))) ++
-  le_bytes (vsize f) (r_min r) ++ le_bytes (vsize f) (r_max r) ++
-  flat_map (enc_pair f) (r_cs r) ++ flat_map (le_bytes (vsize f)) (r_buf r).
-
-(* reference implementation: r_k is the compression as an f64 (type 1) / f32 (type 2) bit pattern,
-   min / max are f64 in both, weights are floating point bit patterns *)
-Definition spec_encode_ref_double (r : td_raw) : list N :=
-  [0; 0; 0; 1] ++ rev (le_bytes 8 (r_min r)) ++ rev (le_bytes 8 (r_max r)) ++ rev (le_bytes 8 (r_k r)) ++
-  rev (le_bytes 4 (N.of_nat (length (r_cs r)))) ++ flat_map (enc_pair_be Double) (r_cs r).
-Definition spec_encode_ref_float (r : td_raw) : list N :=
-  [0; 0; 0; 2] ++ rev (le_bytes 8 (r_min r)) ++ rev (le_bytes 8 (r_max r)) ++ rev (le_bytes 4 (r_k r)) ++
-  rev (le_bytes 4 (r_unused r)) ++ rev (le_bytes 2 (N.of_nat (length (r_cs r)))) ++ flat_map (enc_pair_be Float) (r_cs r).
+Definition is_ref_image (bs : list N) : bool := (nth 0 bs 1 =? 0) && (nth 1 bs 1 =? 0) && (nth 2 bs 1 =? 0).
+Definition spec_decode_any (f : flavour) (bs : list N) : option td_abs :=
+  if is_ref_image bs then spec_decode_ref bs else spec_decode f bs.
